@@ -379,9 +379,10 @@ class Result:
 HARNESS_LIBS = {"h_lz4": ["-llz4"]}
 
 
-def correspond(ctx, res, harness, mode, lines, holds, classify=None, trivial=None, vm="direct", exe_args=(), env=None, sample=3, rule="", per_chunk=200, libs=(), line_timeout=None):
+def correspond(ctx, res, harness, mode, lines, holds, classify=None, trivial=None, vm="direct", exe_args=(), env=None, sample=3, rule="", per_chunk=200, libs=(), line_timeout=None, same=None):
     """Run `lines` through the real code (harness) and the Lean model (grdriver <mode>), diff, and evaluate the
-    property predicate `holds(line, impl_out) -> (True|False|None, why)` on the implementation's own output."""
+    property predicate `holds(line, impl_out) -> (True|False|None, why)` on the implementation's own output.
+    `same(impl_out, model_out)` replaces plain equality where the model covers only a part of what the harness reports."""
     exe = build_harness(harness, vm=vm, libs=HARNESS_LIBS.get(harness, ()))
     impl = run_lines([exe] + list(exe_args), lines, env=env, per_chunk=per_chunk, line_timeout=line_timeout)
     model = run_lines([driver_path(), mode], lines, per_chunk=per_chunk, line_timeout=line_timeout) if ctx.model_ok else [None] * len(lines)
@@ -405,14 +406,14 @@ def correspond(ctx, res, harness, mode, lines, holds, classify=None, trivial=Non
         ok, why = holds(l, i)
         if ok is False:
             res.failures.append({"harness": harness, "mode": mode, "vm": vm, "line": l, "impl": i, "model": m, "why": why, "exe_args": [str(x) for x in exe_args]})
-        if m is not None and i != m:
+        if m is not None and not (same(i, m) if same else i == m):
             res.disagreements.append({"harness": harness, "mode": mode, "vm": vm, "line": l, "impl": i, "model": m, "explained_by_failure": ok is False, "exe_args": [str(x) for x in exe_args]})
         if idx in picks:
             res.samples.append({"in": l[:300], "impl": i[:300], "model": (m or "")[:300]})
     return impl, model
 
 
-def replay_lines(ctx, obj, holds_by_mode):
+def replay_lines(ctx, obj, holds_by_mode, same=None):
     """Generic replay of a failing-input / correspondence replay object."""
     items = [obj] if "line" in obj else obj.get("first", [])
     still = False
@@ -422,6 +423,6 @@ def replay_lines(ctx, obj, holds_by_mode):
         m = run_lines([driver_path(), it["mode"]], [it["line"]])[0] if driver_path().exists() else None
         ok, why = holds_by_mode[it["mode"]](it["line"], i)
         print("input : %s\nimpl  : %s\nmodel : %s\nproperty predicate on impl output: %s %s" % (it["line"][:500], i[:500], (m or "")[:500], ok, why or ""))
-        if ok is False or (m is not None and m != i):
+        if ok is False or (m is not None and not (same(i, m) if same else m == i)):
             still = True
     return still
